@@ -625,12 +625,28 @@ pub fn try_build_reg(
   roots: Vec<String>,
 ) -> Result<Built, crate::build::BuildFailure> {
   let mut graph = graph;
-  if graph.packages.mappings().is_empty() {
+  if graph.packages.mappings().is_empty() && !w.seeds.is_empty() {
+    // through the public entry point for lockfile contents; the lockfile's redirect section is given
+    // `jsr:`-keyed entries as well (into another version than the pinned one): those are not redirects
+    // the graph may follow - a `jsr:` specifier is resolved through the registry
+    let mut reqs: Vec<(deno_semver::jsr::JsrDepPackageReq, String)> = vec![];
+    let mut redirects: Vec<(String, String)> = vec![];
     for (name, req, ver) in &w.seeds {
-      if let (Ok(r), Ok(v)) = (deno_semver::package::PackageReq::from_str(&format!("{}@{}", name, req)), deno_semver::Version::parse_standard(ver)) {
-        graph.packages.add_nv(r, deno_semver::package::PackageNv { name: name.as_str().into(), version: v });
+      if let Ok(r) = deno_semver::package::PackageReq::from_str(&format!("{}@{}", name, req)) {
+        reqs.push((deno_semver::jsr::JsrDepPackageReq::jsr(r), ver.clone()));
+        if let Some(p) = w.pkgs.iter().find(|p| p.name == *name) {
+          if let Some(other) = p.versions.iter().find(|v| v.version != *ver) {
+            for sub in ["", "/sub"] {
+              redirects.push((format!("jsr:{}@{}{}", name, req, sub), file_url(name, &other.version, "/mod.ts")));
+            }
+          }
+        }
       }
     }
+    graph.fill_from_lockfile(deno_graph::FillFromLockfileOptions {
+      redirects: redirects.iter().map(|(a, b)| (a.as_str(), b.as_str())),
+      package_specifiers: reqs.iter().map(|(a, b)| (a, b.as_str())),
+    });
   }
   let reporter = RecReporter { resolved: Mutex::new(vec![]), calls: loader.calls.clone() };
   let mut locker = initial_locker(w);
